@@ -79,7 +79,7 @@ V("c01-start-rebased-twice", "C01", "M", SIO, "    record.data.start += offset\n
 V("c01-ranges-swapped", "C01", "M", SMD, '(m["data"]["start"], m["data"]["stop"])', '(m["data"]["stop"], m["data"]["start"])', "transform_metadata")
 V("c01-shape-swapped", "C01", "M", SMD, '''        header["sar_related_data_in_the_record"]["number_of_lines_per_dataset"],
         header["sar_related_data_in_the_record"]["number_of_data_groups_per_line"],''', '''        header["sar_related_data_in_the_record"]["number_of_data_groups_per_line"],
-        header["sar_related_data_in_the_record"]["number_of_lines_per_dataset"],''', "extract_shape")
+        header["sar_related_data_in_the_record"]["number_of_lines_per_dataset"],''', "shape[0]")
 V("c01-seek-no-start", "C01", "M", SIG, '"stop" / Seek(this._.record_start + this._.preamble.record_length)', '"stop" / Seek(this._.preamble.record_length)', "signal")
 V("c01-prefix-shift", "C01", "M", PRO, '"blanks4" / StripNullBytes(Bytes(8))', '"blanks4" / StripNullBytes(Bytes(12))', "processed")
 V("c01-grouping-other-size", "C01", "M", ARR, "groupby_chunks(selected_ranges, chunksize=self.records_per_chunk)", "groupby_chunks(selected_ranges, chunksize=1024)", "grouped by")
@@ -224,10 +224,10 @@ V("c07-eq-broader-handler", ["C07", "C09", "C18"], "E", SII, "        except Cac
 # ---------------------------------------------------------------- C08
 V("c08-units-key", "C08", "M", DEC, "encoding['units']", "encoding['unit']", "unit")
 V("c08-float-cast", "C08", "M", ENC, 'encoded = (obj - reference).astype("int64").tolist()', 'encoded = (obj - reference).astype("float64").tolist()', "cast")
-V("c08-object-hook", "C08", "M", CAC, "json.loads(cache, object_hook=postprocess)", "json.loads(cache)", "object_hook")
+V("c08-object-hook", "C08", "M", CAC, "json.loads(cache, object_hook=postprocess)", "json.loads(cache)", "tuple")
 V("c08-M-decoder-removed", "C08", "M", DEC, 'decoders = {"M": decode_datetime}', "decoders = {}", "decoder")
 V("c08-coercion-removed", ["C08", "C07"], "M", ENC, "    obj = np.asarray(obj)\n\n", "", "K5")
-V("c08-preprocess-skipped", "C08", "M", CAC, "return json.dumps(preprocess(encoded))", "return json.dumps(encoded)", "preprocess")
+V("c08-preprocess-skipped", "C08", "M", CAC, "return json.dumps(preprocess(encoded))", "return json.dumps(encoded)", "became [")
 V("c08-tuple-branch", "C08", "M", ENC, '''    elif isinstance(data, tuple):
         return {"__type__": "tuple", "data": list(map(preprocess, data))}''', '''    elif isinstance(data, tuple):
         return list(map(preprocess, data))''', "tuple")
@@ -486,3 +486,19 @@ V("c20-binary-spare-as-text", "C20", "M", PRO, '"blanks1" / StripNullBytes(Bytes
   more=[(PRO, "from ceos_alos2.datatypes import DatetimeYdms, Factor, Metadata, StripNullBytes", "from ceos_alos2.datatypes import DatetimeYdms, Factor, Metadata, PaddedString, StripNullBytes")])
 V("c06-chunks-whole-image", "C06", "M", ARR, "        return (self.records_per_chunk, *self.shape[1:])", "        return tuple(self.shape)", "Q10")
 V("c06-eq-chunks-spelled", "C06", "E", ARR, "        return (self.records_per_chunk, *self.shape[1:])", "        rows = self.records_per_chunk\n        return (rows,) + tuple(self.shape[1:])")
+
+# ---------------------------------------------------------------- round-5 rules
+LMD = "ceos_alos2/sar_leader/metadata.py"
+V("c18-shape-follows-records", "C18", "M", SMD, "    shape = extract_shape(header)\n", "    n_rows, n_cols = extract_shape(header)\n    shape = (min(n_rows, len(byte_ranges)), n_cols)\n", "declared shape")
+V("c13-object-coords-dropped", "C13", "M", XRP, '    coords = ds.attrs.pop("coordinates", [])\n', '    names = ds.attrs.pop("coordinates", [])\n    coords = [name for name in names if ds[name].dtype.kind != "O"]\n', "coordinates")
+V("c13-eq-coords-listed", "C13", "E", XRP, '    coords = ds.attrs.pop("coordinates", [])\n', '    names = ds.attrs.pop("coordinates", [])\n    coords = [name for name in names]\n')
+V("c05-context-state", ["C05", "C06", "C17"], "M", DTY, "        truncated = datetime.datetime.combine(reference_date.date(), datetime.time.min)\n        return truncated + datetime.timedelta(microseconds=obj)",
+  "        truncated = context._params.setdefault(\"_day\", datetime.datetime.combine(reference_date.date(), datetime.time.min))\n        return truncated + datetime.timedelta(microseconds=obj)", "context")
+V("c17-float-cast", "C17", "M", LMD, "        new_data = reference_date + time.data\n", "        new_data = reference_date + (time.data.astype(\"float64\") * 1.0).astype(\"timedelta64[ns]\")\n", "C17-M7")
+V("c20-raise-on-blank", "C20", "M", LMD, "    reference_year = group[\"platform_position\"].attrs[\"datetime_of_first_point\"][:4]\n",
+  "    latitude = group[\"dataset_summary\"][\"geodetic_latitude\"].data\n    if not abs(latitude) <= 90.0:\n        raise ValueError(\"scene center out of range\")\n    reference_year = group[\"platform_position\"].attrs[\"datetime_of_first_point\"][:4]\n", "blank")
+V("c16-text-right-stripped-only", ["C16", "C03", "C04"], "M", DTY, "        return obj.strip()\n\n    def _encode(self, obj, context, path):\n        raise NotImplementedError\n\n\nclass Factor", "        return obj.rstrip()\n\n    def _encode(self, obj, context, path):\n        raise NotImplementedError\n\n\nclass Factor", "PaddedString")
+V("c16-eq-text-explicit-wrappers", ["C16", "C03", "C04", "C20"], "E", DTY, '        base = PaddedString_(n_bytes, "ascii")\n        super().__init__(base)\n\n    def _decode(self, obj, context, path):\n        return obj.strip()',
+  '        base = StringEncoded(FixedSized(n_bytes, NullStripped(GreedyBytes)), "ascii")\n        super().__init__(base)\n\n    def _decode(self, obj, context, path):\n        return obj.strip()',
+  more=[(DTY, "from construct import PaddedString as PaddedString_", "from construct import FixedSized, GreedyBytes, NullStripped, StringEncoded\nfrom construct import PaddedString as PaddedString_")])
+V("c18-eq-guard-in-helper", ["C18", "C03"], "E", SIO, "    n_elements = len(content) // element_size\n    if n_elements * element_size != len(content):", "    n_elements, rest = divmod(len(content), element_size)\n    if rest != 0:")
